@@ -41,7 +41,7 @@ def gen_wave_case(rng, **kw):
     else:
         k.caps = int(capmode) if capmode != 'vec' else [rng.choice([4, 8, 12, 16]) for _ in range(len(k.c.lines))]
     k.s0, k.s1, k.s2, k.extra = wc.gen_stimulus(rng, k.c, k.sims, tmax=kw.get('tmax', 12), extra_prob=kw.get('extra_prob', 0.4), busy=kw.get('busy', False))
-    k.tcap = kw.get('tcap', rng.choice([None, None, 3, 6, 9, 14]))
+    k.tcap = kw.get('tcap', rng.choice([None, None, 3, 6, 9, 14, 0, 0, -2]))      # capture times incl. exactly 0 and before every transition
     k.a_ctrl = None
     if kw.get('with_actrl', False):
         n = len(k.c.lines)       # the documented shape: one row per line
